@@ -35,6 +35,7 @@ EXTRA = [
     "x = [i for i in range(3)]\nfor i in x:\n    i += 1\n    (a, *b), c = [i, i], i\n",
     "def f(a, /, b=1, *c, d, e=2, **g):\n    global q\n    q = lambda z=a: (y := z)\n    return f'{a!r:>{b}}' '}'\n",
     "class A(B, metaclass=M, k=1):\n    x: int = 1\n    def m(self):\n        return super().m()\n",
+    "def scale(value, *, factor):\n    return value * factor\ndef join(*, sep):\n    return sep\nclass S:\n    def sort(self, rows, *, key, reverse=False):\n        return key\nh = lambda *, a, b=1, c: a\n",
     "while x:\n    _ = 1\n    for _ in y:\n        break\n    else:\n        continue\n",
     "s = '\\n\\r\\u2028'\nt = b'\\n'\nu = f'{s}\\n{t!a}'\n",
     "try:\n    pass\nexcept E:\n    pass\n",
